@@ -18,6 +18,7 @@ import (
 	"reflect"
 	"strings"
 	"sync"
+	"sync/atomic"
 	"testing"
 	"time"
 
@@ -30,12 +31,17 @@ type c07Sub struct {
 	Early    int    `json:"early"`
 	Pad      int    `json:"pad,omitempty"`
 	Consumer string `json:"consumer"` // eager | slow | resume | stalled
+	Bare     bool   `json:"bare,omitempty"` // (item streams) the method's only result is the channel
+	ChanCap  int    `json:"chan_cap,omitempty"`
 }
 
 type c07Case struct {
 	Subs  []c07Sub    `json:"subs"`
 	Unary int         `json:"unary"`
 	Late  int         `json:"late,omitempty"` // unary calls issued only after the stalled streams' handlers have sent everything
+	// Flood > 0: before anything else a subscription is opened whose handler returns a channel of this capacity and
+	// keeps it full for the whole case (an attentive consumer drains it); it is cancelled at the end
+	Flood int `json:"flood,omitempty"`
 	Rules []*HookRule `json:"rules,omitempty"`
 }
 
@@ -45,7 +51,7 @@ type anyStream struct {
 }
 
 func (s c07Sub) open(cl *RigClient, ctx context.Context, tok string) (*anyStream, error) {
-	plan := Plan{N: s.N, Early: s.Early, ElemPad: s.Pad}
+	plan := Plan{N: s.N, Early: s.Early, ElemPad: s.Pad, Bare: s.Bare && (s.Type == "" || s.Type == "item"), ChanCap: s.ChanCap}
 	switch s.Type {
 	case "int":
 		ch, err := cl.C.SubInt(ctx, tok, plan)
@@ -132,7 +138,7 @@ func (s c07Sub) open(cl *RigClient, ctx context.Context, tok string) (*anyStream
 			}
 		}}, nil
 	}
-	ch, err := cl.C.Sub(ctx, tok, plan)
+	ch, err := cl.C.OpenSub(ctx, tok, plan)
 	if err != nil {
 		return nil, err
 	}
@@ -220,6 +226,32 @@ func runC07(c c07Case) (*Violation, string) {
 	subs := make([]*sub, len(c.Subs))
 	ctx, cancel := context.WithCancel(context.Background())
 	defer cancel()
+	// a producer that never pauses, on a buffered channel, next to everything else on the connection
+	var floodV atomic.Value
+	floodDone := make(chan struct{})
+	fctx, fcancel := context.WithCancel(context.Background())
+	defer fcancel()
+	if c.Flood > 0 {
+		ftok := rig.Tok("flood")
+		fch, err := cl.C.Sub(fctx, ftok, Plan{Flood: true, ChanCap: c.Flood})
+		if err != nil {
+			return violf("subscribe-failed", "subscription %s failed on a healthy connection: %v", ftok, err), ""
+		}
+		go func() {
+			defer close(floodDone)
+			next := 0
+			for v := range fch {
+				if v.Tok != ftok || v.Seq != next {
+					floodV.Store(violf("stream-reordered", "the never-pausing stream %s received %s/%d, expected seq %d", ftok, v.Tok, v.Seq, next))
+					return
+				}
+				next++
+			}
+		}()
+		time.Sleep(2 * time.Millisecond)
+	} else {
+		close(floodDone)
+	}
 	var wg sync.WaitGroup
 	for i, sc := range c.Subs {
 		subs[i] = &sub{c07Sub: sc, tok: rig.Tok(fmt.Sprintf("s%d", i))}
@@ -319,6 +351,17 @@ func runC07(c c07Case) (*Violation, string) {
 			}
 		}
 	}
+	if c.Flood > 0 {
+		fcancel()
+		select {
+		case <-floodDone:
+		case <-time.After(5 * time.Second):
+			return violf("channel-never-closed", "the never-pausing stream was cancelled by its caller but its channel did not close within 5s"), ""
+		}
+		if v, _ := floodV.Load().(*Violation); v != nil {
+			return v, ""
+		}
+	}
 	// wire order: response announcing channel n precedes the first value for n; values per channel in order
 	subReq := map[string]string{} // request id -> token
 	chanOf := map[string]float64{}
@@ -402,6 +445,16 @@ func c07NT(c c07Case) (bool, []string) {
 		if s.Consumer == "stalled" || s.Consumer == "resume" {
 			nt = true
 		}
+		if s.Bare && s.Type == "item" {
+			cl = append(cl, "bare_channel_result")
+		}
+		if s.ChanCap > s.Early {
+			cl = append(cl, "buffered_handler_channel")
+		}
+	}
+	if c.Flood > 0 {
+		cl = append(cl, "never_pausing_producer")
+		nt = true
 	}
 	if len(c.Rules) > 0 {
 		cl = append(cl, "with_delays")
@@ -412,13 +465,13 @@ func c07NT(c c07Case) (bool, []string) {
 	return nt, cl
 }
 
-const c07Rule = "1-5 concurrent subscriptions, lengths from {0,1,2,31..34,100,255..257,1000}, element types {struct with (token,seq), int64, string}, 0..N values pre-loaded in the handler's channel buffer before it returns, consumers {eager, slow, stalled then resumed, stalled for the whole case}, 0-6 interleaved unary calls, 0-3 delays at chan.register / chan.forward / chan.sink / write.locked / resp.found. Non-trivial = >=2 subscriptions, or a length > 32, or early sends, or a stalled consumer; distinct by descriptor hash"
+const c07Rule = "1-5 concurrent subscriptions, lengths from {0,1,2,31..34,100,255..257,1000}, element types {struct with (token,seq), int64, string, struct with optional pointer/map/slice fields, float64 with one NaN}, subscribing methods returning (channel, error) or only a channel, handler channels with 0-300 spare slots, optionally one extra subscription whose producer never pauses on a buffered channel (capacity 1-1024) for the whole case, 0..N values pre-loaded in the handler's channel buffer before it returns, consumers {eager, slow, stalled then resumed, stalled for the whole case}, 0-6 interleaved unary calls, 0-3 delays at chan.register / chan.forward / chan.sink / write.locked / resp.found. Non-trivial = >=2 subscriptions, or a length > 32, or early sends, or a stalled consumer; distinct by descriptor hash"
 
 func TestC07(t *testing.T) {
 	rec := NewRec("C07", c07Rule)
 	defer rec.Finish(t)
 	rec.EnableJournal()
-	rec.RequireClass("type_rich", "type_nan", "len_gt_8k", "len_gt_32", "len_0", "early_send", "consumer_stalled", "consumer_resume", "consumer_slow", "type_int", "type_str", "with_delays", "with_unary", "nsubs_3")
+	rec.RequireClass("bare_channel_result", "buffered_handler_channel", "never_pausing_producer", "type_rich", "type_nan", "len_gt_8k", "len_gt_32", "len_0", "early_send", "consumer_stalled", "consumer_resume", "consumer_slow", "type_int", "type_str", "with_delays", "with_unary", "nsubs_3")
 	run := func(ft failer, c c07Case) {
 		nt, cl := c07NT(c)
 		rec.Run(ft, c, nt, cl, func() *Violation {
@@ -448,6 +501,11 @@ func TestC07(t *testing.T) {
 		run(t, c07Case{Subs: []c07Sub{{Type: "int", N: 12000, Consumer: "stalled"}, {Type: "item", N: 20, Consumer: "eager"}}, Unary: 3, Late: 3})
 		for _, cons := range []string{"eager", "resume", "stalled"} {
 			run(t, c07Case{Subs: []c07Sub{{Type: "rich", N: 40, Early: 3, Consumer: cons}, {Type: "nan", N: 9, Consumer: "eager"}, {Type: "item", N: 50, Consumer: "eager"}, {Type: "rich", N: 13, Consumer: "slow"}}, Unary: 2, Late: 1})
+		}
+		// methods whose only result is the channel; handler channels with spare capacity; a producer that never pauses
+		run(t, c07Case{Subs: []c07Sub{{Type: "item", N: 40, Bare: true, Consumer: "eager"}, {Type: "item", N: 300, Early: 2, Bare: true, ChanCap: 16, Consumer: "slow"}, {Type: "int", N: 33, Consumer: "eager"}}, Unary: 2})
+		for _, fc := range []int{1, 8, 256} {
+			run(t, c07Case{Flood: fc, Subs: []c07Sub{{Type: "item", N: 20, Consumer: "eager"}, {Type: "str", N: 100, ChanCap: 4, Consumer: "eager"}, {Type: "item", N: 5, Bare: true, Consumer: "resume"}}, Unary: 3})
 		}
 		for _, cons := range []string{"stalled", "resume", "slow"} {
 			run(t, c07Case{Subs: []c07Sub{{Type: "item", N: 300, Consumer: cons}, {Type: "int", N: 40, Early: 2, Consumer: "eager"}, {Type: "str", N: 33, Consumer: "eager"}}, Unary: 4})
@@ -482,7 +540,21 @@ func TestC07(t *testing.T) {
 					s.Early = s.N
 				}
 			}
+			if s.Type == "item" {
+				s.Bare = rapid.IntRange(0, 3).Draw(rt, l+"bare") == 0
+			}
+			if rapid.IntRange(0, 3).Draw(rt, l+"capkind") == 0 {
+				s.ChanCap = rapid.SampledFrom([]int{1, 2, 16, 300}).Draw(rt, l+"cap")
+			}
 			c.Subs = append(c.Subs, s)
+		}
+		if rapid.IntRange(0, 5).Draw(rt, "floodkind") == 0 {
+			c.Flood = rapid.SampledFrom([]int{1, 4, 64, 1024}).Draw(rt, "flood")
+			for i := range c.Subs {
+				if c.Subs[i].N > 300 {
+					c.Subs[i].N = 300
+				}
+			}
 		}
 		c.Unary = rapid.IntRange(0, 6).Draw(rt, "unary")
 		c.Late = rapid.IntRange(0, 2).Draw(rt, "late")
@@ -492,6 +564,10 @@ func TestC07(t *testing.T) {
 				Occ: rapid.IntRange(0, 5).Draw(rt, fmt.Sprintf("occ%d", i)), DelayU: rapid.SampledFrom([]int{50, 500, 3000}).Draw(rt, fmt.Sprintf("d%d", i))})
 			if r := c.Rules[len(c.Rules)-1]; r.Occ == 0 && r.DelayU > 100 {
 				r.DelayU = 100 // a delay at every occurrence must stay far below the consumers' budget
+			}
+			if r := c.Rules[len(c.Rules)-1]; r.Occ == 0 && c.Flood > 0 {
+				// a never-pausing producer plus a delay on every frame is an overload made by the harness, not a schedule
+				r.Occ = 1 + i
 			}
 		}
 		run(rt, c)
